@@ -32,6 +32,14 @@ func (w *World) CheckFrameAndTags(o *Obs) []Violation {
 	for _, f := range o.Frame {
 		vs = append(vs, v("C11", "frame-field-modified", strings.Fields(f)[0], f))
 	}
+	if o.OK() {
+		cr := w.Created(o)
+		for _, id := range sdl.SortedKeys(o.LoggerSet) {
+			if cr[id] && !o.LoggerSet[id] {
+				vs = append(vs, v("C11", "logger-field-not-set", id, fmt.Sprintf("created component %s has an exported field tagged logger:\"\" (carrier chain %v) that was not set", id, w.Types[w.Insts[id].Type].LogEmbed)))
+			}
+		}
+	}
 	if o.TagRecords == nil || !o.OK() {
 		return vs
 	}
